@@ -345,3 +345,60 @@ func TestReproK09_MergeDoesNotResurrectUncommitted(t *testing.T) {
 		t.Fatalf("after Merge + reopen the value of the uncommitted transaction won: k=%q", v)
 	}
 }
+
+// K25: list, set and sorted-set records written in HintKeyAndRAMIdxMode must survive a reopen.
+func TestReproK25_KeyOnlyModeReopenWithSetListZSet(t *testing.T) {
+	for _, which := range []string{"set", "list", "zset"} {
+		dir := reproDir(t)
+		defer os.RemoveAll(dir)
+		db := reproOpen(t, dir, HintKeyAndRAMIdxMode, 64*1024, FileIO)
+		err := db.Update(func(tx *Tx) error {
+			switch which {
+			case "set":
+				return tx.SAdd("b", []byte("k"), []byte("m1"))
+			case "list":
+				return tx.RPush("b", []byte("k"), []byte("v1"))
+			default:
+				return tx.ZAdd("b", []byte("k"), 1.5, []byte("v"))
+			}
+		})
+		if err != nil {
+			t.Fatalf("%s: write failed: %v", which, err)
+		}
+		db.Close()
+		func() {
+			defer func() {
+				if r := recover(); r != nil {
+					t.Errorf("%s: Open panicked: %v", which, r)
+				}
+			}()
+			o := DefaultOptions
+			o.Dir = dir
+			o.EntryIdxMode = HintKeyAndRAMIdxMode
+			o.SegmentSize = 64 * 1024
+			db2, err := Open(o)
+			if err != nil {
+				t.Errorf("%s: reopen failed: %v", which, err)
+				return
+			}
+			defer db2.Close()
+			db2.View(func(tx *Tx) error {
+				switch which {
+				case "set":
+					if ok, err := tx.SIsMember("b", []byte("k"), []byte("m1")); err != nil || !ok {
+						t.Errorf("set member lost: %v %v", ok, err)
+					}
+				case "list":
+					if l, err := tx.LRange("b", []byte("k"), 0, -1); err != nil || len(l) != 1 || string(l[0]) != "v1" {
+						t.Errorf("list lost: %v %v", l, err)
+					}
+				default:
+					if n, err := tx.ZGetByKey("b", []byte("k")); err != nil || n == nil || string(n.Value) != "v" {
+						t.Errorf("zset lost: %v %v", n, err)
+					}
+				}
+				return nil
+			})
+		}()
+	}
+}
